@@ -23,6 +23,7 @@ var c10Polluters = []jsProg{
 	{"bindings-depth2", `_.bindings.o.x = 99; return {};`},
 	{"bindings-depth3", `_.bindings.o.l[0].z = 99; _.bindings.o.l.push(7); return {};`},
 	{"bindings-go-typed", `_.bindings.tags[0] = "changed"; _.bindings.labels.a = "changed"; _.bindings.recs[0].k = 2; return {};`},
+	{"bindings-go-typed-only", `if (_.bindings.tags) { _.bindings.tags[0] = "changed"; } if (_.bindings.labels) { _.bindings.labels.a = "changed"; } if (_.bindings.nums) { _.bindings.nums[0] = 9; } return {};`},
 	{"bindings-permanent-value", `_.bindings["cfg!"].limit = 0; _.bindings["cfg!"].deep[0].z = "changed"; _.bindings["cfg!"].deep.push(9); _.bindings["list!"][0] = "changed"; return _.bindings;`},
 	{"bindings-by-computed-name", `var b = _["bind" + "ings"]; b.a = 99; delete b.keep; b.o.x = 99; b.o.l.push(8); return {};`},
 	{"bindings-by-enumeration", `for (var k in _) { var v = _[k]; if (v && typeof v == "object" && v.keep !== undefined) { v.keep = "gone"; v.o.x = 98; } } return {};`},
@@ -105,6 +106,15 @@ type c10Case struct {
 	Via   string   `json:"via"`             // exec | walk
 	Share bool     `json:"share"`           // the caller hands the same bindings/props objects to every execution
 	Props string   `json:"props,omitempty"` // "" populated | nil | empty : the step properties the caller supplies
+	// Typed: the caller's bindings hold nothing but collections of Go types a JSON decoder does not produce
+	Typed bool `json:"typed,omitempty"`
+}
+
+func (cs c10Case) bindings() match.Bindings {
+	if cs.Typed {
+		return match.Bindings{"keep": "k", "tags": []string{"x", "y"}, "labels": map[string]string{"a": "b"}, "nums": []int{1, 2}}
+	}
+	return c10Bindings()
 }
 
 func (cs c10Case) props() core.StepProps {
@@ -135,12 +145,12 @@ type c10Obs struct {
 
 // c10Run executes the sequence; returns the observation of the last program and any caller-side damage.
 func c10Run(interp *ecmascript.Interpreter, compiled map[string]interface{}, cs c10Case) (last c10Obs, damage []string) {
-	bs, props := c10Bindings(), cs.props()
+	bs, props := cs.bindings(), cs.props()
 	bsSnap, propsSnap := snap.Of(bs), snap.Of(props)
 	for i, name := range cs.Seq {
 		p := c10Find(name)
 		if !cs.Share {
-			bs, props = c10Bindings(), cs.props()
+			bs, props = cs.bindings(), cs.props()
 		}
 		var obs c10Obs
 		if cs.Via == "exec" {
@@ -178,7 +188,7 @@ func c10Run(interp *ecmascript.Interpreter, compiled map[string]interface{}, cs 
 		if cs.Share {
 			if snap.Of(bs) != bsSnap {
 				damage = append(damage, "caller-bindings-modified-by:"+name)
-				bs, bsSnap = c10Bindings(), ""
+				bs, bsSnap = cs.bindings(), ""
 				bsSnap = snap.Of(bs)
 			}
 			if snap.Of(props) != propsSnap {
@@ -227,6 +237,9 @@ func C10(c *vh.Ctx) {
 		for _, d := range damage {
 			c.Violation("C10/"+d+"/via-"+cs.Via, fmt.Sprintf("sequence %v via %s: %s", cs.Seq, cs.Via, d), cs)
 		}
+		if cs.Typed {
+			return // only the caller's objects are judged here (the baselines are those of the usual bindings)
+		}
 		want := base[cs.Via+"/"+cs.Props+"/"+probe]
 		if os.Getenv("VERIF_DEBUG") != "" {
 			os.WriteFile("/tmp/c10dbg.log", []byte(fmt.Sprintf("LAST %+v\nWANT %+v\n", last, want)), 0o644)
@@ -243,8 +256,17 @@ func C10(c *vh.Ctx) {
 		}
 		return
 	}
-	c.Rule(fmt.Sprintf("%d polluting scripts (in-place mutation of bindings at depth 1-3 (also of the values of permanent '!' bindings), of nested and top-level props, implicit and this-globals, Object/Array/String prototypes, JSON/Math built-ins, replacing or freezing members of the environment object, editing what _.out and _.match returned, polluting then failing) x %d probes + %d self-probing scripts; every ordered pair (polluter, probe), every triple (polluter, polluter, probe), and every self-probing script twice; through Interpreter.Exec with a shared compiled program and through Spec.Walk; with fresh and with shared caller bindings/props objects; pairs and self-probes also with nil and with empty step properties; oracle: the probe's bindings and emissions equal its solo result, the caller's bindings and props are snapshot-equal afterwards. non-trivial = every sequence.", len(c10Polluters), len(c10Probes), len(c10Self)))
+	c.Rule(fmt.Sprintf("%d polluting scripts (in-place mutation of bindings at depth 1-3 (also of the values of permanent '!' bindings), of nested and top-level props, implicit and this-globals, Object/Array/String prototypes, JSON/Math built-ins, replacing or freezing members of the environment object, editing what _.out and _.match returned, polluting then failing) x %d probes + %d self-probing scripts; every ordered pair (polluter, probe), every triple (polluter, polluter, probe), and every self-probing script twice; through Interpreter.Exec with a shared compiled program and through Spec.Walk; with fresh and with shared caller bindings/props objects (also bindings that hold nothing but collections of Go types a JSON decoder does not produce); pairs and self-probes also with nil and with empty step properties; oracle: the probe's bindings and emissions equal its solo result, the caller's bindings and props are snapshot-equal afterwards. non-trivial = every sequence.", len(c10Polluters), len(c10Probes), len(c10Self)))
 	var idx uint64
+	// the caller's bindings hold nothing but collections of Go types: whoever writes into them writes into a copy
+	for _, via := range []string{"exec", "walk"} {
+		for _, pol := range []string{"bindings-go-typed-only", "bindings-depth1", "bindings-by-enumeration"} {
+			idx++
+			if c.Mine(idx) {
+				one(c10Case{Seq: []string{pol, pol}, Via: via, Share: true, Typed: true})
+			}
+		}
+	}
 	// the caller supplies no step properties (nil) or empty ones: pairs and self-probes
 	for _, via := range []string{"exec", "walk"} {
 		for _, pv := range []string{"nil", "empty"} {
